@@ -48,7 +48,7 @@ CHECKS = {
         "exploration",
         "property-based fault injection: generated chunk sequences x per-call socket fault scripts under a fake selector and virtual clock; byte-exact oracle + deterministic non-termination detection",
         "SocketStreamTransport (sendmsg path, base-class path, SC_IOV_MAX variants) and StreamEndpoint.send_packet over a scripted socket.socket subclass: bytes accepted by the 'kernel' must equal the concatenated chunks "
-        "(a prefix on failure), the call must end (select() with nothing scheduled or 2000 calls without progress = violation), waits never exceed the timeout; async TLS write backlog checked against the stdlib-ssl peer.",
+        "(a prefix on failure), the call must end (select() with nothing scheduled or 2000 calls without progress = violation), waits never exceed the timeout; async TLS write backlog checked against the stdlib-ssl peer, with injected partial writes / want-read refusals of the TLS engine and optionally a second task parked in recv().",
         "Socket behaviour is simulated (script + capacity model), not a kernel; blocking SSLStreamTransport and the asyncio adapter are covered by other layers/checks when present.",
         "DESIGN.md section 3 C04",
     ),
@@ -165,7 +165,8 @@ CHECKS = {
     "C18": (
         "exploration",
         "property-based history generation with interval-order oracles: lifecycle call histories with tick-exact offsets on a virtual loop (async servers) and randomized real-thread histories (standalone servers)",
-        "Histories of serve_forever/shutdown/server_close/server_activate/connect over up to 3 tasks or threads; refusals only when the overlapping interval that justifies them exists, shutdown returns only after serving stopped, a stopped server serves again unless closed, listeners closed after server_close, nothing deadlocks.",
+        "Histories of serve_forever/shutdown/server_close/server_activate/connect over up to 3 tasks or threads; refusals only when the overlapping interval that justifies them exists, shutdown returns only after serving stopped, a stopped server serves again unless closed, listeners closed after server_close, nothing deadlocks. Further layers: stop-under-load (shutdown / cancelled serve_forever / cancelled handler scope against a client that keeps the real asyncio stream protocol's buffers filled must take effect within the data already received), "
+        "real-startup-race (stop request 0-30 loop iterations into the start-up of a TCP/UDP server on 1-4 real loopback addresses: no socket descriptor outlives server_close()), real-accept-race (stop request right after 1-3 real peers connected: every accepted connection is closed by the library, not by a finalizer).",
         "Standalone layer: OS-owned schedule with a 30 s watchdog (3x re-run before a hang counts); the two shapes S1 and S2 found by this layer were repaired in /repo and are searched again (DESIGN 7.3/7.4).",
         "DESIGN.md section 3 C18",
     ),
